@@ -103,8 +103,16 @@ impl Chunk {
     pub fn read_data<R: Read + Seek>(&self, reader: &mut R) -> Result<Vec<u8>> {
         self.seek_to_data(reader)?;
 
-        let mut data = vec![0; self.header.size as usize];
-        reader.read_exact(&mut data)?;
+        // The declared size is not trusted for the allocation: read at most that many
+        // bytes and fail if the stream ends before the chunk does
+        let mut data = Vec::new();
+        reader
+            .by_ref()
+            .take(u64::from(self.header.size))
+            .read_to_end(&mut data)?;
+        if data.len() != self.header.size as usize {
+            return Err(WmoError::UnexpectedEof);
+        }
 
         Ok(data)
     }
